@@ -52,11 +52,11 @@ def runTasks (old : Option Bytes) (fresh : Bool) (size : Nat) (ts : List Task) :
   | t :: rest => some ((t :: rest).foldl runTask (allocate (old.getD []) fresh size))
 
 /-- final content of the destination file, task by task (`none` = no file) -/
-def restoreFileTasks (o : Opts) (old : Option Bytes) (mtimeEq : Bool) (blobs : List Bytes) : Option Bytes :=
+def restoreFileTasks (o : Opts) (old : Option Bytes) (dm nm : Option MTime) (blobs : List Bytes) : Option Bytes :=
   let size := blobs.flatten.length
   let matching := matchingFile old size
   if size = 0 then (if matching.isSome then old else some [])
-  else if o.verify = false ∧ matching.isSome ∧ mtimeEq = true then old
+  else if o.verify = false ∧ matching.isSome ∧ mtimeEq dm nm = true then old
   else runTasks old matching.isNone size (tasks o matching.isNone matching 0 blobs)
 
 end Rustic.Restore
